@@ -12,7 +12,7 @@ typedef enum {
 	COMP_VJRN,
 } ical_comp_t;
 
-#line 22 "evcomp-gp.erf"
+#line 21 "evcomp-gp.erf"
 struct ical_comp_cell_s {
 	const char *compstr;
 	ical_comp_t comp;
@@ -47,13 +47,13 @@ __evical_comp (register const char *str, register size_t len)
 
   static const struct ical_comp_cell_s wordlist[] =
     {
-#line 30 "evcomp-gp.erf"
-      {"VTODO", COMP_VTOD},
 #line 29 "evcomp-gp.erf"
-      {"VEVENT", COMP_VEVT},
-#line 31 "evcomp-gp.erf"
-      {"VJOURNAL", COMP_VJRN},
+      {"VTODO", COMP_VTOD},
 #line 28 "evcomp-gp.erf"
+      {"VEVENT", COMP_VEVT},
+#line 30 "evcomp-gp.erf"
+      {"VJOURNAL", COMP_VJRN},
+#line 27 "evcomp-gp.erf"
       {"VCALENDAR", COMP_VCAL}
     };
 
